@@ -18,6 +18,7 @@ from vlib import Undecided
 
 HELPERS = "core/src/timeline_helpers.rs"
 TIMELINE = "core/src/timeline.rs"
+TIMESCALE = "core/src/time_scale.rs"
 
 EDITS = {
     "V-R1": "from_keyframes: `keyframes: impl IntoIterator<Item = &'a Keyframe<Data>>` -> `keyframes: &'a Vec<Keyframe<Data>>` (the only call shape the derive macro emits)",
@@ -25,6 +26,8 @@ EDITS = {
     "V-R3": "return types named: `-> T` -> `-> (r: T)`; requires/ensures inserted between signature and body",
     "V-R4": "#[derive(..)] and doc comments on the extracted structs dropped; `pub(super)` field visibility of Keyframe -> `pub`",
     "V-R6": "a closure passed to Option::map gets a return-type name and an `ensures` clause (`|x| e` -> `|x| -> (p: T) ensures p == e { e }`); the body expression is unchanged",
+    "V-R7": "MergedTimeline::update is a trait-impl method in the source; it is emitted as an inherent method of MergedTimeline<T> with `Self::Target` -> `T::Target` (the Verus-side `Timeline` trait declares only start_with/update plus their specification functions)",
+    "V-R8": "prepare_frame: the call `<slice>.binary_search_by(|t| t.total_cmp(&<x>))` -> `bsearch_total_cmp(<slice>, <x>)`, an external_body function whose body is that very call and whose contract is std's documented binary-search contract (assumption A7; the real std search is executed by the bounded Kani harnesses prepare_frame_n*/search_index_n*)",
     "V-R5": "`Data: 'a + Clone + Debug` -> `Data: 'a + Clone` (Debug is unused by the body and has no Verus spec)",
 }
 
@@ -75,7 +78,7 @@ def parse_contracts(path):
         if m:
             out.append({"fn": m.group(1), "kind": "closure", "anchor": m.group(2), "text": "\n".join(s["text"]).strip()})
             continue
-        m = re.match(r"fn (\S+) at (body-start|loop-body-start|loop-body-end|loop-after)$", h)
+        m = re.match(r"fn (\S+) at (body-start|loop-body-start|loop-body-end|loop-after|tail)$", h)
         if m:
             out.append({"fn": m.group(1), "kind": "at", "where": m.group(2), "text": "\n".join(s["text"]).rstrip() + "\n"})
             continue
@@ -97,7 +100,7 @@ def name_return(sig):
     return sig[:m.start()] + "-> (r: %s)" % ty + rest, True
 
 
-def assemble(repo=None, contracts_path=None, prelude_path=None, mutate=None):
+def assemble(repo=None, contracts_path=None, prelude_path=None, mutate=None, skip_merged=False, skip_prepare=False):
     repo = repo or vlib.REPO
     contracts_path = contracts_path or os.path.join(vlib.VERIF, "contracts/verus/contracts.vrs")
     prelude_path = prelude_path or os.path.join(vlib.VERIF, "contracts/verus/prelude.rs")
@@ -265,6 +268,119 @@ def assemble(repo=None, contracts_path=None, prelude_path=None, mutate=None):
     for n in ("from_keyframes", "override_start_value", "value_at", "empty", "get_bounding_frames", "get_frame"):
         emit_fn("impl<Value: Clone + Lerp> SubTimeline<Value>", n, "SubTimeline::" + n)
     out.append("}\n\n")
+    # --- MergedTimeline::update (core/src/timeline.rs): the ordered-overlay loop, for any number of components
+    report["skipped"] = []
+    try:
+        if skip_merged:
+            raise Undecided("MergedTimeline::update left out: Verus could not process the file with it")
+        ms, mline = extract_struct(tsrc, r"^pub struct MergedTimeline<T: Timeline>\s*\{", "struct MergedTimeline")
+        mimpl = "impl<T: Timeline> Timeline for MergedTimeline<T>"
+        ls, ob, cb = vlib.find_fn(tsrc, "update", mimpl)
+        msig, mbody = tsrc[ls:ob], tsrc[ob:cb + 1]
+        morig = msig + mbody
+        for bad in ("assume(", "admit(", "external_body", "unsafe"):
+            if bad in morig:
+                raise Undecided("extracted body of MergedTimeline::update contains %s" % bad)
+        if "Self::Target" not in msig:
+            raise Undecided("anchor lost: MergedTimeline::update signature (Self::Target)")
+        msig2 = msig.replace("Self::Target", "T::Target")
+        report["edits_applied"].append("V-R7 MergedTimeline::update: trait-impl method emitted as an inherent method, `Self::Target` -> `T::Target`")
+        # the one loop of the body; the loop-progress term of the invariant depends on what is iterated (stated shapes only)
+        mloop = re.search(r"for\s+(\w+)\s+in\s+([^{]+?)\s*\{", mbody)
+        if not mloop or len(re.findall(r"\b(?:for|while|loop)\b", mbody)) != 1:
+            raise Undecided("anchor lost: MergedTimeline::update is no longer one `for` loop")
+        lvar, liter = mloop.group(1), mloop.group(2).strip()
+        if re.fullmatch(r"&self\.timelines|self\.timelines\.iter\(\)", liter):
+            idx, head = "it.index@", "for %s in it: %s\n" % (lvar, liter)
+        elif re.fullmatch(r"0\s*\.\.\s*self\.timelines\.len\(\)", liter):
+            idx, head = "%s as int" % lvar, "for %s in it: %s\n" % (lvar, liter)
+        else:
+            raise Undecided("MergedTimeline::update iterates `%s`: not a shape the loop invariant is written for" % liter)
+        mcs = [c for c in contracts if c["fn"] == "MergedTimeline::update"]
+        mcontract = "".join(c["text"] for c in mcs if c["kind"] == "contract")
+        minv = "".join(c["text"] for c in mcs if c["kind"] == "invariant").replace("@IDX@", idx)
+        mbody2 = mbody[:mloop.start()] + head + minv + "        {" + mbody[mloop.end():]
+        if mutate:
+            mbody2 = mutate("MergedTimeline::update", mbody2)
+        out.append(strip_doc(ms) + "\n\n")
+        report["functions"].append({"function": "struct MergedTimeline", "file": TIMELINE, "line": mline, "sha256_16": vlib.sha(ms)})
+        out.append("impl<T: Timeline> MergedTimeline<T> {\n    pub closed spec fn comps(&self) -> Seq<T> { self.timelines@ }\n\n" + strip_doc(msig2).rstrip() + "\n" + mcontract + mbody2 + "\n}\n\n")
+        report["functions"].append({"function": "MergedTimeline::update", "file": TIMELINE, "line": vlib.line_of(tsrc, ls), "sha256_16": vlib.sha(morig), "contract_clauses": 1})
+
+    except Undecided as e:
+        # MergedTimeline is independent of the SubTimeline functions: losing it leaves only C12's Verus unit undecided
+        report["skipped"].append(str(e))
+    # --- prepare_frame (core/src/timeline.rs): which master index and which start-override flag the lookup gets, any number of keyframes
+    try:
+        if skip_prepare:
+            raise Undecided("prepare_frame left out: Verus could not process the file with it")
+        scp = os.path.join(repo, TIMESCALE)
+        if not os.path.exists(scp):
+            raise Undecided("anchor lost: %s" % TIMESCALE)
+        ssrc = open(scp).read()
+        pe, peline = extract_struct(ssrc, r"^pub enum TimeScalePosition\s*\{", "enum TimeScalePosition")
+        pl, plline = extract_struct(ssrc, r"^pub struct TimeScaleLoopState\s*\{", "struct TimeScaleLoopState")
+        ls, ob, cb = vlib.find_fn(tsrc, "prepare_frame", None)
+        psig, pbody = tsrc[ls:ob], tsrc[ob:cb + 1]
+        porig = psig + pbody
+        for bad in ("assume(", "admit(", "external_body", "unsafe"):
+            if bad in porig:
+                raise Undecided("extracted body of prepare_frame contains %s" % bad)
+        psig2, named = name_return(strip_doc(psig))
+        if not named:
+            raise Undecided("anchor lost: prepare_frame return type")
+        pm = re.search(r"fn\s+prepare_frame\s*\(\s*(\w+)\s*:\s*f32\s*,\s*(\w+)\s*:\s*&\[f32\]\s*,\s*(\w+)\s*:\s*&TimeScale\s*,?\s*\)", psig)
+        if not pm:
+            raise Undecided("anchor lost: prepare_frame parameter list")
+        roles = {"time": pm.group(1), "boundary_times": pm.group(2), "timescale": pm.group(3)}
+        bs = list(re.finditer(r"(\w+)\s*\.\s*binary_search_by\(\s*\|\s*(\w+)\s*\|\s*\2\.total_cmp\(\s*&(\w+)\s*\)\s*\)", pbody))
+        if len(bs) != 1:
+            raise Undecided("anchor lost: prepare_frame's binary_search_by(|t| t.total_cmp(&x)) call (V-R8)")
+        b = bs[0]
+        pbody2 = pbody[:b.start()] + "bsearch_total_cmp(%s, %s)" % (b.group(1), b.group(3)) + pbody[b.end():]
+        roles["normalized_time"] = b.group(3)
+        m = re.search(r"let\s+(\w+)\s*=\s*match\s+bsearch_total_cmp", pbody2)
+        if not m:
+            raise Undecided("anchor lost: prepare_frame's `let <index> = match <search>`")
+        roles["frame_index"] = m.group(1)
+        report["edits_applied"].append("V-R8 prepare_frame")
+        report["edits_applied"].append("V-R3 prepare_frame")
+        pcs = [dict(c) for c in contracts if c["fn"] == "prepare_frame"]
+        for c in pcs:
+            t = c["text"]
+            for k in roles:
+                t = re.sub(r"\b%s\b" % k, "\0ROLE_%s\0" % k, t)
+            for k, v in roles.items():
+                t = t.replace("\0ROLE_%s\0" % k, v)
+            c["text"] = t
+        pcontract = "".join(c["text"] for c in pcs if c["kind"] == "contract")
+        # proof block goes after the last statement of the body (before the tail expression)
+        depth, last = 0, -1
+        for i, ch in enumerate(pbody2):
+            if ch in "{([":
+                depth += 1
+            elif ch in "})]":
+                depth -= 1
+            elif ch == ";" and depth == 1:
+                last = i
+        if last < 0:
+            raise Undecided("anchor lost: prepare_frame has no statement before its tail expression")
+        for c in pcs:
+            if c["kind"] == "at" and c["where"] == "body-start":
+                pass
+        tail = "".join(c["text"] for c in pcs if c["kind"] == "at" and c["where"] == "tail")
+        start = "".join(c["text"] for c in pcs if c["kind"] == "at" and c["where"] == "body-start")
+        pbody2 = pbody2[:1] + "\n" + start + pbody2[1:last + 1] + "\n" + tail + pbody2[last + 1:]
+        if mutate:
+            pbody2 = mutate("prepare_frame", pbody2)
+        out.append(strip_doc(pe) + "\n\n" + strip_doc(pl) + "\n\n")
+        out.append(psig2.rstrip() + "\n" + pcontract + pbody2 + "\n\n")
+        report["functions"].append({"function": "enum TimeScalePosition", "file": TIMESCALE, "line": peline, "sha256_16": vlib.sha(pe)})
+        report["functions"].append({"function": "struct TimeScaleLoopState", "file": TIMESCALE, "line": plline, "sha256_16": vlib.sha(pl)})
+        report["functions"].append({"function": "prepare_frame", "file": TIMELINE, "line": vlib.line_of(tsrc, ls), "sha256_16": vlib.sha(porig), "contract_clauses": pcontract.count(",\n")})
+    except Undecided as e:
+        report["skipped"].append(str(e))
+        out.append("// prepare_frame not extracted; stand-ins so that the trusted declarations below still type-check\npub enum TimeScalePosition { NotStarted, Active(f32, TimeScaleLoopState), Ended(f32) }\npub struct TimeScaleLoopState { pub is_repeating: bool, pub is_reversing: bool }\n")
     post = os.path.join(vlib.VERIF, "contracts/verus/postlude.rs")
     if os.path.exists(post):
         out.append(open(post).read())
